@@ -1,57 +1,105 @@
-"""Run the checks against the seeded breaking changes kept under /verif/seeded/<id>/.
+"""Regression harness of the checker itself over the two stored corpora:
 
-Each change is applied to an in-memory overlay of the current /repo tree (the patch is
-applied with `git apply` to a scratch export under $TMPDIR, which is removed afterwards);
-the property named in meta.json must then report a violation.  Not a registered check:
-this is the regression harness for the checker itself."""
+  seeded/<id>/   breaking changes written by independent sub-agents (patch.diff, demo, meta.json): the property named in
+                 meta.json must report a violation on the patched tree;
+  benign/<id>/   behaviour-preserving refactorings written by independent sub-agents (patch.diff, notes.md): all twenty
+                 checks must stay silent on the patched tree.
+
+Patches are applied in memory (gverif.patchutil) as an overlay over the tree under analysis: nothing is written anywhere.
+Not a registered check; the thorough tier of every property runs its share of both corpora (gverif.liveness)."""
 import json
 import os
-import shutil
-import subprocess
-import tempfile
 
-from .index import Repo
+from .index import Repo, AnalysisError
 from .report import VERIF_DIR
+from . import patchutil
+
+
+def corpus(kind):
+    base = os.path.join(VERIF_DIR, kind)
+    out = []
+    if not os.path.isdir(base):
+        return out
+    for d in sorted(os.listdir(base)):
+        p = os.path.join(base, d, "patch.diff")
+        if os.path.isfile(p):
+            out.append((d, os.path.join(base, d)))
+    return out
+
+
+def overlay_of(repo, d):
+    with open(os.path.join(d, "patch.diff"), encoding="utf-8") as f:
+        return patchutil.overlay(repo, f.read())
+
+
+def _job(job):
+    kind, sid, d, root, props = job
+    from .cli import run_property
+    try:
+        base = Repo(root, inline=False)
+        ov = overlay_of(base, d)
+        if ov is None:
+            return kind, sid, "skip", ["patch does not apply to the current tree"]
+        repo = Repo(root, overlay=ov)
+    except AnalysisError as e:
+        return kind, sid, "error", [str(e)]
+    hit = []
+    for p in props:
+        st, lines, ctx, err = run_property(p, repo, "quick", 0, write=False)
+        for v in ctx.violations:
+            hit.append("%s %s :: %s" % (v["rule"], v["site"], v["detail"][:160]))
+        if err:
+            hit.append("%s ANALYSIS-ERROR %s" % (p, err[:160]))
+    return kind, sid, "done", hit
+
+
+def _pool(jobs):
+    import multiprocessing
+    n = min(len(jobs), int(os.environ.get("GVERIF_JOBS", "0")) or (os.cpu_count() or 1), 16)
+    if n <= 1:
+        return [_job(j) for j in jobs]
+    try:
+        with multiprocessing.get_context("fork").Pool(n) as pool:
+            return pool.map(_job, jobs, chunksize=1)
+    except Exception:
+        return [_job(j) for j in jobs]
 
 
 def run(args):
-    from .cli import run_property
-    base = os.path.join(VERIF_DIR, "seeded")
-    ids = args.ids or sorted(d for d in os.listdir(base) if os.path.isdir(os.path.join(base, d)))
+    from .cli import PROPS
     root = args.repo or os.environ.get("GVERIF_REPO", "/repo")
     worst = 0
-    for sid in ids:
-        d = os.path.join(base, sid)
+    jobs = []
+    for sid, d in corpus("seeded"):
+        if args.ids and sid not in args.ids:
+            continue
         meta = json.load(open(os.path.join(d, "meta.json")))
-        tmp = tempfile.mkdtemp(prefix="gverif-seeded-")
-        try:
-            shutil.copytree(os.path.join(root, "gunicorn"), os.path.join(tmp, "gunicorn"), ignore=shutil.ignore_patterns("__pycache__"))
-            r = subprocess.run(["git", "apply", "--unsafe-paths", "--directory", tmp, os.path.join(d, "patch.diff")], capture_output=True, text=True, cwd=tmp)
-            if r.returncode != 0:
-                r = subprocess.run(["patch", "-p1", "-s", "-i", os.path.join(d, "patch.diff")], capture_output=True, text=True, cwd=tmp)
-            if r.returncode != 0:
-                print("%-28s SKIP patch does not apply: %s" % (sid, (r.stderr or r.stdout).strip()[:120]))
-                worst = max(worst, 2)
-                continue
-            repo = Repo(tmp)
-            props = meta.get("properties") or [meta["property"]]
-            hit = []
-            for p in props:
-                st, lines, ctx, err = run_property(p, repo, "quick", 0, write=False)
-                for v in ctx.violations:
-                    hit.append("%s %s" % (v["rule"], v["site"]))
-                if err:
-                    hit.append("ANALYSIS-ERROR %s" % err[:100])
-            expect = meta.get("expect", "caught")
-            if hit and expect == "caught":
-                print("%-28s CAUGHT  %s" % (sid, hit[0][:150]))
-            elif not hit and expect == "missed":
-                print("%-28s missed (recorded as out of reach: %s)" % (sid, meta.get("why_missed", "")[:100]))
-            elif not hit:
-                print("%-28s MISSED  (expected a violation of %s)" % (sid, props))
-                worst = max(worst, 1)
-            else:
-                print("%-28s caught although recorded as missed: %s" % (sid, hit[0][:120]))
-        finally:
-            shutil.rmtree(tmp, ignore_errors=True)
+        jobs.append(("seeded", sid, d, root, meta.get("properties") or [meta["property"]]))
+    for kind, sid, state, hit in _pool(jobs):
+        if state != "done":
+            print("%-28s SKIP %s" % (sid, hit[0][:120]))
+            worst = max(worst, 2)
+        elif hit:
+            print("%-28s CAUGHT  %s" % (sid, hit[0][:150]))
+        else:
+            print("%-28s MISSED" % sid)
+            worst = max(worst, 1)
+    return worst
+
+
+def run_benign(args):
+    from .cli import PROPS
+    root = args.repo or os.environ.get("GVERIF_REPO", "/repo")
+    jobs = [("benign", sid, d, root, PROPS) for sid, d in corpus("benign") if not args.ids or sid in args.ids]
+    worst = 0
+    for kind, sid, state, hit in _pool(jobs):
+        if state != "done":
+            print("%-28s SKIP %s" % (sid, hit[0][:120]))
+        elif hit:
+            worst = 1
+            print("%-28s %d ALARM(S)" % (sid, len(hit)))
+            for h in hit[:8]:
+                print("      " + h[:300])
+        else:
+            print("%-28s silent" % sid)
     return worst
